@@ -43,7 +43,7 @@ pub struct C18Case {
 
 pub fn c18_case() -> impl Strategy<Value = C18Case> {
     let op = prop_oneof![
-        5 => (0u8..2, 0u8..11, prop::option::weighted(0.25, 0u8..7), 0u8..6).prop_map(|(entry, route, clean, how)| HOp::Invoke { entry, route, clean, how }),
+        5 => (0u8..2, 0u8..13, prop::option::weighted(0.25, 0u8..7), 0u8..6).prop_map(|(entry, route, clean, how)| HOp::Invoke { entry, route, clean, how }),
         3 => (0u8..6, 0u8..3).prop_map(|(input, kind)| HOp::Edit { input, kind }),
         1 => Just(HOp::ToggleFail),
         1 => (0u8..7).prop_map(HOp::Corrupt),
@@ -177,7 +177,7 @@ enum Rec {
 fn route(l: &Layout, entry: u8, route: u8) -> (String, Vec<String>, Vec<usize>, &'static str) {
     let r = if l.root_named { "root::" } else { "" };
     if entry % 2 == 0 {
-        match route % 11 {
+        match route % 13 {
             0 => ("proj".into(), vec!["a".into()], vec![0], "root:bare-a"),
             1 => ("proj".into(), vec!["sub::b".into()], vec![1], "root:qualified-b"),
             2 => ("proj".into(), vec!["all".into()], vec![0, 1], "root:aggregate"),
@@ -187,10 +187,12 @@ fn route(l: &Layout, entry: u8, route: u8) -> (String, Vec<String>, Vec<usize>, 
             6 => ("proj".into(), vec!["sub::f".into(), "sub::b".into()], vec![3, 1], "root:f+b"),
             7 => ("proj".into(), vec!["sub::b-1".into()], vec![5], "root:b-1"),
             8 => ("proj".into(), vec!["sub::b_1".into(), "a".into()], vec![6, 0], "root:b_1+a"),
+            9 => ("proj".into(), vec!["sub::b".into(), "c".into()], vec![1, 2], "root:producer-before-consumer"),
+            10 => ("proj".into(), vec!["all".into(), "c".into()], vec![0, 1, 2], "root:aggregate-then-consumer"),
             _ => ("proj".into(), vec!["c".into(), "a".into(), "sub::b".into()], vec![2, 0, 1], "root:c+a+b"),
         }
     } else {
-        match route % 11 {
+        match route % 13 {
             0 | 1 => ("proj/sub".into(), vec!["b".into()], vec![1], "sub:bare-b"),
             2 => ("proj/sub".into(), vec!["sub::b".into()], vec![1], "sub:qualified-b"),
             3 | 4 => ("proj/sub".into(), vec!["d".into()], vec![4], "sub:b-as-dependency-of-d"),
